@@ -22,11 +22,11 @@ import (
 type C19 struct{}
 
 var c19Cmds = []string{"canary-pause", "canary-unpause", "canary-validate", "canary-fail", "pause-rolling-update", "unpause-rolling-update", "freeze-rollout", "unfreeze-rollout"}
-var c19States = []string{"no-canary", "canary-running", "auto-paused", "user-paused", "failed", "mid-rolling-update", "canary-before-first-pod", "user-paused-before-first-pod"}
+var c19States = []string{"no-canary", "canary-running", "auto-paused", "auto-paused-by-restarts", "user-paused", "failed", "mid-rolling-update", "canary-before-first-pod", "user-paused-before-first-pod"}
 
 func (e *C19) Name() string { return "sim.c19" }
 func (e *C19) Rule() string {
-	return "reachable states {no canary, canary running, auto-paused, user-paused, failed, mid rolling update, canary before its first pod} x every sequence of 1-3 of the 8 commands (584 per state; all in thorough, seeded sample in quick) x {no edit, template edit before the reconciles}; each command runs through its real body with an injected client; whole-store diff before/after each command; then cooperative rounds and the state/promotion/rollback expectations; non-trivial = distinct (state, sequence, edit) tuples in which at least one command acted"
+	return "reachable states {no canary, canary running, auto-paused by a start error that went away, auto-paused by restart counts that stay, user-paused, failed, mid rolling update, canary before its first pod} x every sequence of 1-3 of the 8 commands (584 per state; all in thorough, seeded sample in quick) x {no edit, template edit before the reconciles}; each command runs through its real body with an injected client; whole-store diff before/after each command; then cooperative rounds and the state/promotion/rollback expectations; non-trivial = distinct (state, sequence, edit) tuples in which at least one command acted"
 }
 
 func c19Seqs() [][]int {
@@ -215,6 +215,30 @@ func (e *C19) prepare(w *World, state string) bool {
 		// the image problem gets fixed; the pause persists until a manual action
 		for _, n := range e.Status.Canary.Nodes {
 			w.Behav[n] = &NodeBehaviour{}
+		}
+		w.Coop = true
+	case "auto-paused-by-restarts":
+		// like auto-paused, but the cause does not go away: the canary pods keep the restart count that
+		// paused the canary (above autoPause.maxRestarts, below autoFail.maxRestarts)
+		w.Coop = false
+		for _, n := range w.SortedNodeNames() {
+			w.Behav[n] = &NodeBehaviour{}
+		}
+		w.SetTemplate(c19NS, c19Name, kit.Tpl("B"))
+		w.Reconcile("eds", c19NS, c19Name)
+		w.Reconcile("eds", c19NS, c19Name)
+		w.Reconcile("eds", c19NS, c19Name)
+		e := kit.GetEDS(w.S, c19NS, c19Name)
+		if e == nil || e.Status.Canary == nil {
+			return false
+		}
+		for _, n := range e.Status.Canary.Nodes {
+			w.Behav[n] = &NodeBehaviour{Restarts: 3}
+		}
+		canaryUp(8)
+		_, _, up := w.CanaryInProgress(c19NS, c19Name)
+		if up == nil || !oracle.RSCond(up, v1.ConditionTypeCanaryPaused) || oracle.RSCond(up, v1.ConditionTypeCanaryFailed) {
+			return false
 		}
 		w.Coop = true
 	case "user-paused":
